@@ -8,7 +8,13 @@ import (
 // Explorer enumerates the executions of a harness body: stateless depth-first search over choice
 // sequences with a preemption bound and (optionally) state-key pruning.
 type Explorer struct {
-	Bound    int  // max preemptions per execution (<0 = unbounded)
+	Bound int // max preemptions per execution (<0 = unbounded)
+	// DevBound >= 0 selects the deviation-bounded search instead: every schedule that departs from the default
+	// schedule (keep running the current thread, else the lowest enabled one; first ready select case) at no
+	// more than DevBound choice points - "one unusual event anywhere" for DevBound 1, whatever it costs in
+	// preemptions. Bound is ignored then.
+	DevBound int
+	DevMode  bool
 	Prune    bool // cut executions at states already expanded with at least the remaining budget
 	Deadline time.Time
 	MaxExecs int64
@@ -30,6 +36,9 @@ type Explorer struct {
 const unboundedBudget = 30000
 
 func (e *Explorer) budget(pre int) int16 {
+	if e.DevMode {
+		return int16(e.DevBound - pre)
+	}
 	if e.Bound < 0 {
 		return unboundedBudget
 	}
@@ -66,7 +75,7 @@ func (e *Explorer) explore(prefix []int, body func()) {
 		e.Capped, e.stop = "max executions", true
 		return
 	}
-	o := RunOpts{}
+	o := RunOpts{PruneByDeviations: e.DevMode}
 	if e.Prune {
 		o.Prune = func(key uint64, point int, pre int) bool {
 			b := e.budget(pre)
@@ -97,12 +106,18 @@ func (e *Explorer) explore(prefix []int, body func()) {
 	for i := len(prefix); i < len(x.Points); i++ {
 		p := x.Points[i]
 		for alt := 1; alt < p.N; alt++ {
-			cost := p.Pre
-			if !p.Env && p.CurEnabled {
-				cost++
-			}
-			if e.Bound >= 0 && cost > e.Bound {
-				continue
+			if e.DevMode {
+				if p.Dev+1 > e.DevBound {
+					continue
+				}
+			} else {
+				cost := p.Pre
+				if !p.Env && p.CurEnabled {
+					cost++
+				}
+				if e.Bound >= 0 && cost > e.Bound {
+					continue
+				}
 			}
 			np := make([]int, i+1)
 			for j := 0; j < i; j++ {
